@@ -148,7 +148,10 @@ def reference_sign(ctx, req, ans, shards):
 
 def run(ctx):
     ctx.cov["rule"] = (
-        "events = real Sign/Verify calls through signature.NewSigner/NewVerifier(handle) and the signature/subtle constructors over "
+        "events = real Sign/Verify calls through signature.NewSigner/NewVerifier(handle), the per-key constructors "
+        "{ecdsa,ed25519,rsassapkcs1,rsassapss}.NewSigner/NewVerifier (hook testing/verifhooks: they take an internalapi.Token; "
+        "reached directly because the factory's prefix map shadows the per-key prefix check), the signature/subtle constructors and "
+        "the raw internal/signature RSA primitives, over "
         "ECDSA {P256/SHA256, P384/SHA384, P384/SHA512, P521/SHA512} x {DER, IEEE_P1363}, Ed25519, RSA-SSA-PKCS1 {SHA256,384,512}, "
         "RSA-SSA-PSS x salt {0,1,20,hLen,32,64,max-1,max}, modulus 2048 (quick) / 2048,2049,3072,4096 (thorough), x {TINK,CRUNCHY,"
         "LEGACY,NO_PREFIX} x key ids {0,1,0x01020304,2^31-1,2^31,2^32-1}, fresh keys per run; per (configuration, key): messages "
@@ -179,7 +182,7 @@ def run(ctx):
         return
     # (M) the strict DER parser against the encoder on the re-encoding shapes x boundary integer values (exhaustive)
     ctx.model_check("MC_DER", "MC_DER_full" if ctx.thorough else "MC_DER", stage="M:MC_DER", must_cover=False,
-                    workers=8 if ctx.thorough else 2, heap="6g", timeout=7200)
+                    workers=1, heap="6g", timeout=7200)   # every state is an initial state: generated and checked by one thread
     keys, req, ans = ctx.scratch + "/keys.json", ctx.scratch + "/req.ndjson", ctx.scratch + "/ans.ndjson"
     r = ctx.run([drv, "-mode", "plan", "-keys", keys, "-req", req])
     ctx.log("plan:", r.stdout.strip())
@@ -239,7 +242,7 @@ MANIFEST = dict(
           "under the reference. Conformance on enumerated inputs, not a proof over all byte strings."),
     note=("Trusted: JDK BigInteger/SHA-2/Ed25519, TLC, the TLA+ transcriptions (gated by RFC 6979/8032 vectors and 7.8k Wycheproof "
           "vectors in bin/selfspec; cross-checked per event against the JDK's own ECDSA/RSASSA providers). Ed25519 has a single "
-          "reference implementation (JDK). Per-key constructors taking internalapi.Token are reached only through the keyset factory."),
+          "reference implementation (JDK). Multi-key keysets and the legacy full*Adapter wrappers of the factories belong to C05."),
     technique="TLA+ reference spec (X.690 DER, FIPS 186-5, RFC 8017, RFC 8032 via JDK) + TLC reference signer (plan) + TLC trace "
               "validation of recorded real-code calls, negative control",
     design_ref="DESIGN.md section 6, C03",
